@@ -96,6 +96,8 @@ def oracle(ctx, rng, n):
         else:
             grids = sorted(set(round(rng.uniform(0.05, 0.95), 4) for _ in range(ngrid)))
             mesh = rng.choice([None, 0.003, 0.0071])
+        if len(grids) > 1 and rng.random() < 0.5:
+            rng.shuffle(grids)      # the input does not have to list the grids bottom-up
         gravity = rng.random() < 0.5
         regions = rng.random() < 0.3
         seed_case = rng.getrandbits(32)
@@ -172,6 +174,8 @@ def correspondence(ctx, rng, n):
         dims = du.bundle_dims(rng, rng.choice([2, 3, 4]), 1)
         ngrid = rng.choice([0, 1, 2, 4])
         grids = sorted(set(rng.choice([rng.randint(1, 63) / 64.0, round(rng.uniform(0.02, 0.98), 3)]) for _ in range(ngrid)))
+        if len(grids) > 1 and rng.random() < 0.5:
+            rng.shuffle(grids)
         sg = dict(loss_coeff=rng.uniform(0.5, 2.0), axial_positions=grids, corr=None, corr_coeff=None, solidity=None) if grids else None
         rr = du.make_rr(dims, flow_rate=rng.uniform(1, 8), spacer_grid=sg, gravity=rng.random() < 0.5)
         rr._init_static_correlated_params(650.0)
